@@ -342,7 +342,7 @@ func (x *c14Run) checkListViews(l at.List, r *rng.R) {
 	}
 	// re-entrancy: a callback may itself use read-only views of the same list; neither the inner nor the outer
 	// result may be disturbed (run twice so that anything kept from the first call is in play)
-	for round := 0; round < 2 && !x.bad; round++ {
+	for round := 0; round < 2 && !x.bad && len(all) <= 100; round++ {
 		innerOK := true
 		outer := l.Map(func(i int, v any) any {
 			switch (i + round) % 4 {
@@ -559,7 +559,7 @@ func runC14(c *fw.Ctx) {
 			root = spec.Obj
 		}
 		t := &spec.Spec{K: root}
-		n := []int{0, 1, 2, 5, 9, r.Range(0, 14), r.Range(0, 14), 33, 70}[r.Intn(9)]
+		n := []int{0, 1, 2, 5, 9, r.Range(0, 14), r.Range(0, 14), 33, 70, r.Range(0, 14), []int{130, 300, 1025}[r.Intn(3)]}[r.Intn(11)]
 		kinds := r.U64() | 1<<uint(r.Intn(7)) // which kinds may occur
 		for j := 0; j < n; j++ {
 			var v *spec.Spec
@@ -575,6 +575,9 @@ func runC14(c *fw.Ctx) {
 					v = B(r.Bool())
 				case 2:
 					v = I(r.Range(-3, 3))
+					if r.Chance(1, 6) {
+						v = I(spec.GenInt(r)) // ints beyond 2^53 included
+					}
 				case 3:
 					v = F(float64(r.Range(-6, 6)) / 2)
 				case 4:
@@ -609,6 +612,16 @@ func c14Case(c *fw.Ctx, r *rng.R, tree *spec.Spec) {
 	guard(c, x.desc, func() {
 		c.Distinct(tree.Canon())
 		real := drive.Build(r, tree)
+		if l, ok := real.(at.List); ok && r != nil && r.Chance(1, 6) {
+			// derived structures (user types embedding a List / Object) are containers of that kind too
+			drive.Protect(func() {
+				l.Insert(r.Intn(l.Count()+1), NewDObject("d", 1))
+				l.Insert(r.Intn(l.Count()+1), NewDDList(1, 2))
+				l.Add(NewDList())
+			})
+			hist = append(hist, "derived structures inserted")
+			c.Count("lists_with_derived_elements")
+		}
 		if c.WantSample() && tree.Size() > 4 && tree.Size() < 14 {
 			c.Sample(map[string]any{"container": tree.Canon(), "check": "every typed and untyped view against the elements selected by TypeOf/Get"})
 		}
